@@ -180,4 +180,10 @@ def changed_notebooks(ref_base, ref_remote, paths=None, repo_dir=None):
             entry.b_path, entry.b_blob, ref_remote, repo_dir)
         if fb is None:
             continue
+        if entry.deleted_file and ref_remote is GitRefWorkingTree:
+            # Git reports the file as deleted. An untracked file with the
+            # same name in the working tree is not its remote version.
+            if hasattr(fb, 'close'):
+                fb.close()
+            fb = EXPLICIT_MISSING_FILE
         yield (fa, fb)
